@@ -203,7 +203,7 @@ verif_harness! {
 
 // ------------------------------------------------------------------------------------------- rejection
 
-//@ harness name=wblock_reject prop=C18,C20 tier=quick bits=512 est=45 desc="D: len symbolic in 0..=31: belt_wblock_enc and belt_wblock_dec return Err(InvalidLengthError) and leave all octets of the buffer unmodified, all keys, all contents"
+//@ harness name=wblock_reject prop=C18,C20 tier=quick bits=512 est=30 desc="D: len symbolic in 0..=31: belt_wblock_enc and belt_wblock_dec return Err(InvalidLengthError) and leave all octets of the buffer unmodified, all keys, all contents"
 verif_harness! {
     name: wblock_reject,
     bytes: 33 + 31,
@@ -347,7 +347,7 @@ fn inverse_len<const M: usize>(inp: &[u8], len: usize, enc_first: bool) -> Optio
     let data: [u8; M] = take(inp, 33);
     inverse_at::<M>(&key, &data, len, enc_first)
 }
-//@ harness name=wblock_enc_l32 prop=C18,C20 tier=quick bits=512 stub=1 est=86 desc="W: belt_wblock_enc(data[..32], key) == oracle belt-wbl at the fixed length 32, all keys, all contents, octets beyond the length untouched; belt-block under the key uninterpreted"
+//@ harness name=wblock_enc_l32 prop=C18,C20 tier=quick bits=512 stub=1 est=55 need=5 desc="W: belt_wblock_enc(data[..32], key) == oracle belt-wbl at the fixed length 32, all keys, all contents, octets beyond the length untouched; belt-block under the key uninterpreted"
 verif_harness! {
     name: wblock_enc_l32,
     bytes: 33 + 48,
@@ -355,7 +355,7 @@ verif_harness! {
     stubs: [(crate::belt_block_raw, stub_raw)],
     prop: |inp| { conf_len::<48>(inp, 32, false) }
 }
-//@ harness name=wblock_dec_l32 prop=C18,C20 tier=quick bits=512 stub=1 est=67 desc="W: belt_wblock_dec(data[..32], key) == oracle belt-wbl at the fixed length 32, all keys, all contents, octets beyond the length untouched; belt-block under the key uninterpreted"
+//@ harness name=wblock_dec_l32 prop=C18,C20 tier=quick bits=512 stub=1 est=45 need=4 desc="W: belt_wblock_dec(data[..32], key) == oracle belt-wbl at the fixed length 32, all keys, all contents, octets beyond the length untouched; belt-block under the key uninterpreted"
 verif_harness! {
     name: wblock_dec_l32,
     bytes: 33 + 48,
@@ -363,7 +363,7 @@ verif_harness! {
     stubs: [(crate::belt_block_raw, stub_raw)],
     prop: |inp| { conf_len::<48>(inp, 32, true) }
 }
-//@ harness name=wblock_enc_l33 prop=C18,C20 tier=quick bits=520 stub=1 est=195 desc="W: belt_wblock_enc(data[..33], key) == oracle belt-wbl at the fixed length 33, all keys, all contents, octets beyond the length untouched; belt-block under the key uninterpreted"
+//@ harness name=wblock_enc_l33 prop=C18,C20 tier=quick bits=520 stub=1 est=175 need=9 desc="W: belt_wblock_enc(data[..33], key) == oracle belt-wbl at the fixed length 33, all keys, all contents, octets beyond the length untouched; belt-block under the key uninterpreted"
 verif_harness! {
     name: wblock_enc_l33,
     bytes: 33 + 48,
@@ -371,7 +371,7 @@ verif_harness! {
     stubs: [(crate::belt_block_raw, stub_raw)],
     prop: |inp| { conf_len::<48>(inp, 33, false) }
 }
-//@ harness name=wblock_dec_l33 prop=C18,C20 tier=quick bits=520 stub=1 est=139 desc="W: belt_wblock_dec(data[..33], key) == oracle belt-wbl at the fixed length 33, all keys, all contents, octets beyond the length untouched; belt-block under the key uninterpreted"
+//@ harness name=wblock_dec_l33 prop=C18,C20 tier=quick bits=520 stub=1 est=90 need=8 desc="W: belt_wblock_dec(data[..33], key) == oracle belt-wbl at the fixed length 33, all keys, all contents, octets beyond the length untouched; belt-block under the key uninterpreted"
 verif_harness! {
     name: wblock_dec_l33,
     bytes: 33 + 48,
@@ -379,7 +379,7 @@ verif_harness! {
     stubs: [(crate::belt_block_raw, stub_raw)],
     prop: |inp| { conf_len::<48>(inp, 33, true) }
 }
-//@ harness name=wblock_enc_l47 prop=C18,C20 tier=quick bits=632 stub=1 est=151 desc="W: belt_wblock_enc(data[..47], key) == oracle belt-wbl at the fixed length 47, all keys, all contents, octets beyond the length untouched; belt-block under the key uninterpreted"
+//@ harness name=wblock_enc_l47 prop=C18,C20 tier=quick bits=632 stub=1 est=140 need=9 desc="W: belt_wblock_enc(data[..47], key) == oracle belt-wbl at the fixed length 47, all keys, all contents, octets beyond the length untouched; belt-block under the key uninterpreted"
 verif_harness! {
     name: wblock_enc_l47,
     bytes: 33 + 48,
@@ -387,7 +387,7 @@ verif_harness! {
     stubs: [(crate::belt_block_raw, stub_raw)],
     prop: |inp| { conf_len::<48>(inp, 47, false) }
 }
-//@ harness name=wblock_dec_l47 prop=C18,C20 tier=quick bits=632 stub=1 est=146 desc="W: belt_wblock_dec(data[..47], key) == oracle belt-wbl at the fixed length 47, all keys, all contents, octets beyond the length untouched; belt-block under the key uninterpreted"
+//@ harness name=wblock_dec_l47 prop=C18,C20 tier=quick bits=632 stub=1 est=100 need=8 desc="W: belt_wblock_dec(data[..47], key) == oracle belt-wbl at the fixed length 47, all keys, all contents, octets beyond the length untouched; belt-block under the key uninterpreted"
 verif_harness! {
     name: wblock_dec_l47,
     bytes: 33 + 48,
@@ -395,7 +395,7 @@ verif_harness! {
     stubs: [(crate::belt_block_raw, stub_raw)],
     prop: |inp| { conf_len::<48>(inp, 47, true) }
 }
-//@ harness name=wblock_enc_l48 prop=C18,C20 tier=quick bits=640 stub=1 est=156 desc="W: belt_wblock_enc(data[..48], key) == oracle belt-wbl at the fixed length 48, all keys, all contents, octets beyond the length untouched; belt-block under the key uninterpreted"
+//@ harness name=wblock_enc_l48 prop=C18,C20 tier=quick bits=640 stub=1 est=95 need=9 desc="W: belt_wblock_enc(data[..48], key) == oracle belt-wbl at the fixed length 48, all keys, all contents, octets beyond the length untouched; belt-block under the key uninterpreted"
 verif_harness! {
     name: wblock_enc_l48,
     bytes: 33 + 48,
@@ -403,7 +403,7 @@ verif_harness! {
     stubs: [(crate::belt_block_raw, stub_raw)],
     prop: |inp| { conf_len::<48>(inp, 48, false) }
 }
-//@ harness name=wblock_dec_l48 prop=C18,C20 tier=quick bits=640 stub=1 est=145 desc="W: belt_wblock_dec(data[..48], key) == oracle belt-wbl at the fixed length 48, all keys, all contents, octets beyond the length untouched; belt-block under the key uninterpreted"
+//@ harness name=wblock_dec_l48 prop=C18,C20 tier=quick bits=640 stub=1 est=90 need=8 desc="W: belt_wblock_dec(data[..48], key) == oracle belt-wbl at the fixed length 48, all keys, all contents, octets beyond the length untouched; belt-block under the key uninterpreted"
 verif_harness! {
     name: wblock_dec_l48,
     bytes: 33 + 48,
@@ -411,7 +411,7 @@ verif_harness! {
     stubs: [(crate::belt_block_raw, stub_raw)],
     prop: |inp| { conf_len::<48>(inp, 48, true) }
 }
-//@ harness name=wblock_inv_ed_l33 prop=C18,C01,C20 tier=quick bits=520 stub=1 est=170 desc="W: dec(enc(x)) == x at the fixed length 33, all keys, all contents; belt-block an arbitrary function"
+//@ harness name=wblock_inv_ed_l33 prop=C18,C01,C20 tier=quick bits=520 stub=1 est=140 need=11 desc="W: dec(enc(x)) == x at the fixed length 33, all keys, all contents; belt-block an arbitrary function"
 verif_harness! {
     name: wblock_inv_ed_l33,
     bytes: 33 + 48,
@@ -419,7 +419,7 @@ verif_harness! {
     stubs: [(crate::belt_block_raw, stub_raw)],
     prop: |inp| { inverse_len::<48>(inp, 33, true) }
 }
-//@ harness name=wblock_inv_de_l33 prop=C18,C01,C20 tier=quick bits=520 stub=1 est=160 desc="W: enc(dec(x)) == x at the fixed length 33, all keys, all contents; belt-block an arbitrary function"
+//@ harness name=wblock_inv_de_l33 prop=C18,C01,C20 tier=quick bits=520 stub=1 est=150 need=11 desc="W: enc(dec(x)) == x at the fixed length 33, all keys, all contents; belt-block an arbitrary function"
 verif_harness! {
     name: wblock_inv_de_l33,
     bytes: 33 + 48,
@@ -427,7 +427,7 @@ verif_harness! {
     stubs: [(crate::belt_block_raw, stub_raw)],
     prop: |inp| { inverse_len::<48>(inp, 33, false) }
 }
-//@ harness name=wblock_inv_ed_l48 prop=C18,C01,C20 tier=quick bits=640 stub=1 est=170 desc="W: dec(enc(x)) == x at the fixed length 48, all keys, all contents; belt-block an arbitrary function"
+//@ harness name=wblock_inv_ed_l48 prop=C18,C01,C20 tier=quick bits=640 stub=1 est=175 need=11 desc="W: dec(enc(x)) == x at the fixed length 48, all keys, all contents; belt-block an arbitrary function"
 verif_harness! {
     name: wblock_inv_ed_l48,
     bytes: 33 + 48,
@@ -435,7 +435,7 @@ verif_harness! {
     stubs: [(crate::belt_block_raw, stub_raw)],
     prop: |inp| { inverse_len::<48>(inp, 48, true) }
 }
-//@ harness name=wblock_inv_de_l48 prop=C18,C01,C20 tier=quick bits=640 stub=1 est=170 desc="W: enc(dec(x)) == x at the fixed length 48, all keys, all contents; belt-block an arbitrary function"
+//@ harness name=wblock_inv_de_l48 prop=C18,C01,C20 tier=quick bits=640 stub=1 est=160 need=11 desc="W: enc(dec(x)) == x at the fixed length 48, all keys, all contents; belt-block an arbitrary function"
 verif_harness! {
     name: wblock_inv_de_l48,
     bytes: 33 + 48,
